@@ -97,9 +97,49 @@ def run_driver(binary, args, timeout=600, env_extra=None, ok_codes=(0,)):
     except subprocess.TimeoutExpired as ex:
         raise Infra(f"driver timeout after {timeout}s: {args}\n{(ex.stdout or b'')[-2000:]}")
     log(f"driver {args[0]} rc={p.returncode} {time.time()-t:.1f}s")
+    if p.returncode not in ok_codes and CRASH_VERDICT is not None:
+        cr = frp_crash(p.stderr)
+        if cr:
+            # the driver runs the real frps / frpc in-process: an unrecovered panic raised inside frp's own code
+            # is behaviour of the real code under this property's scenario, not a harness failure
+            rp = scratch("crash-") / "crash.txt"
+            rp.write_text(f"driver {args}\n\n{p.stderr[-20000:]}")
+            CRASH_VERDICT.violation("crash:" + cr[1], f"the real {cr[2]} code terminated the process with an unrecovered {cr[0]} in {cr[1]} "
+                                    f"while the driver '{args[0]}' ran this property's scenario", rp)
+            CRASH_VERDICT.add_cov(crashed=True)
+            CRASH_VERDICT.sample({"crash": cr[0], "in": cr[1]})
+            CRASH_VERDICT.finish()
     if p.returncode not in ok_codes:
         raise Infra(f"driver {args} exit {p.returncode}\nstdout:{p.stdout[-3000:]}\nstderr:{p.stderr[-3000:]}")
     return p
+
+
+CRASH_VERDICT = None   # set by Verdict(): the verdict that owns driver crashes inside frp code
+
+
+def frp_crash(stderr):
+    """(kind, function, side) if stderr shows the Go runtime ending the process with a panic / fatal error whose
+    first non-runtime frame (of the first goroutine listed, the one that died) is in fatedier/frp itself."""
+    m = re.search(r"^(panic: .*|fatal error: .*)$", stderr or "", re.M)
+    if not m:
+        return None
+    rest = stderr[m.end():]
+    g = re.search(r"^goroutine \d+ .*:$", rest, re.M)
+    if not g:
+        return None
+    block = rest[g.end():].split("\n\n", 1)[0]
+    for line in block.splitlines():
+        f = re.match(r"^([\w./\-]+(?:\(\*?[\w.\[\]]+\))?[\w.\[\]]*)\(", line.strip())
+        if not f:
+            continue
+        fn = f.group(1)
+        if "." not in fn.split("/", 1)[0]:
+            continue   # standard library frame (runtime, reflect, sync, net/http ...): keep looking for the caller
+        if fn.startswith("github.com/fatedier/frp/") and "/verifhook" not in fn:
+            side = "frpc" if "/frp/client" in fn else "frps" if "/frp/server" in fn else "frp"
+            return (m.group(1)[:160], fn.replace("github.com/fatedier/frp/", ""), side)
+        return None
+    return None
 
 
 def events_of(module):
@@ -320,6 +360,8 @@ class Verdict:
         self.assumptions = []
         self.samples = []
         self.kf = [f for f in known_findings() if f.get("property") == prop and f.get("status") == "known"]
+        global CRASH_VERDICT
+        CRASH_VERDICT = self
 
     def violation(self, signature, desc, replay_src=None, replay_obj=None):
         """Record a property violation observed on the real code. signature identifies the
